@@ -36,3 +36,32 @@ Theorem C09_file_of_accepted : forall c d ops st outs,
   w_run c d w_init ops = (st, outs) -> w_ftr st = true ->
   file_bytes d (cfg_flags c) (accepted_chunks ops outs) = Ok (total_out outs ++ w_pending st).
 Proof. exact w_file_of_accepted. Qed.
+
+(* ---- the Compressor on the 64-bit-word BitWriter (Model/WState.v: header / chunk / footer /
+   drain_bytes / byte_size with validation in the real order, the body-size placeholder
+   back-patched at pre_meta_bit_idx + 24 relative to whatever undrained output precedes the
+   chunk) simulates the byte-list state machine of the protocol theorems: same acceptance,
+   every rejection InvalidArgument and a no-op on the words, same bytes however draining is
+   interleaved ---- *)
+From QCo.Model Require Import Words WFile WState.
+From QCo.Lemmas Require Import FileL WStateL.
+
+Theorem C09_word_level_compressor_step : forall c d st o,
+  wwinv st -> wop_ok c d o ->
+  let (st', out) := ww_step c d st o in
+  wwinv st' /\ w_step c d (wabs st) o = (wabs st', out).
+Proof. exact ww_step_sim. Qed.
+
+Theorem C09_word_level_compressor_run : forall c d ops st,
+  wwinv st -> Forall (wop_ok c d) ops ->
+  let (st', outs) := ww_run c d st ops in
+  wwinv st' /\ w_run c d (wabs st) ops = (wabs st', outs).
+Proof. exact ww_run_sim. Qed.
+
+Theorem C09_word_level_valid_file : forall c d chunks st outs,
+  Forall (chunk_ok d (cfg_flags c)) chunks ->
+  ww_run c d ww_init (WHeader :: map (fun '(xs, t) => WChunk xs t) chunks ++ [WFooter])
+    = (st, outs) ->
+  forallb (fun o => negb (wfail o)) outs = true ->
+  file_bytes d (cfg_flags c) chunks = Ok (wr_drain_bytes (ww_wr st)).
+Proof. exact ww_valid_file. Qed.
